@@ -1,10 +1,10 @@
 #!/usr/bin/env python3
 """Behaviour-preserving refactorings (written by sub-agents that saw only the repository): every check must stay
 silent on each of them.  Applies /verif/refactors/<agent>/rN.diff one at a time in a scratch worktree.
-Usage: python3 selftest/refactors_regress.py [substring]"""
+Usage: python3 selftest/refactors_regress.py [regex]   (PG_REFAC_WT=<scratch worktree> to run several in parallel)"""
 import glob, os, re, subprocess, sys
-WT = "/tmp/pg-refac-wt"
-EVID = "/tmp/pg-refac-evid"
+WT = os.environ.get("PG_REFAC_WT", "/tmp/pg-refac-wt")
+EVID = WT + "-evid"
 ALL = ["C%02d" % i for i in range(1, 21)]
 only = sys.argv[1] if len(sys.argv) > 1 else ""
 
@@ -20,7 +20,7 @@ env = dict(os.environ, PGCHECK_REPO=WT, PGCHECK_EVID=EVID, PGCHECK_CACHE_KEEP="4
 bad = 0
 n = 0
 for p in sorted(glob.glob("/verif/refactors/*/r*.diff")):
-    if only and only not in p:
+    if only and not re.search(only, p):
         continue
     n += 1
     run(["git", "-C", WT, "checkout", "--", "."])
